@@ -382,7 +382,7 @@ def gen_b(tier, seed):
     def add(name, lines, **meta):
         out.append((Case('oob_%s_%d' % (name, len(out)), [], lines), meta))
 
-    vals = [('m', 'plus 0'), ('m+1', 'plus 1'), ('max', 'max')]
+    vals = [('m', 'plus 0'), ('m+1', 'plus 1'), ('max', 'max'), ('2^32+k%m', 'hi'), ('(k%m+1)<<32', 'hi2')]
     for op in ('insert', 'find', 'erase'):
         for vname, vtxt in vals:
             for n0 in (1, 4, 7):
